@@ -29,6 +29,17 @@ def explore(ctx):
         for _ in range(6000):
             s = "".join(ctx.rng.choice(ALPHABET) for _ in range(ctx.rng.randint(5, 9)))
             lines.append("LEX " + common.hexs(s))
+    # spellings of numbers: leading zeros in every part, signs, ratios, decimals, exponents, and the near misses
+    parts = ["0", "1", "7", "00", "01", "02", "007", "010", "10", "100", "0100", "2147483647", "02147483647", "2147483648"]
+    for a in parts:
+        for sign in ("", "-", "+"):
+            lines.append("LEX " + common.hexs(sign + a))
+            for b in parts:
+                lines.append("LEX " + common.hexs("%s%s/%s" % (sign, a, b)))
+                if len(a) <= 3 and len(b) <= 3:
+                    lines.append("LEX " + common.hexs("%s%s.%s" % (sign, a, b)))
+                    lines.append("LEX " + common.hexs("%s%se%s" % (sign, a, b)))
+                    lines.append("LEX " + common.hexs("(%s%s/%s %s.%se%s)" % (sign, a, b, a, b, a)))
     nlex = len(lines)
     reads = []
     for _ in range(20000 if ctx.quick else 60000):
@@ -73,7 +84,7 @@ def explore(ctx):
         "disagreements": len(dis) + ndis,
         "tree_layout_failures": wrong,
         "rule": "(a) every string up to length %d over the 17-character alphabet ( ) ' # . + - 1 a e / \" ; \\ | space "
-                "newline%s: token sequence with locations, model vs implementation; random strings through the "
+                "newline%s, plus a grid of number spellings (leading zeros in every part, signs, ratios, decimals, exponents): token sequence with locations, model vs implementation; random strings through the "
                 "datum reader (hook Parser::verif_next_datum), data with locations compared; (b) %d random datum trees "
                 "(integers incl. i32 bounds, ratios, decimals with exponents, booleans, characters, strings with "
                 "escapes, plain / peculiar / |quoted| identifiers, lists, dotted tails, vectors, quote) each rendered "
